@@ -13,6 +13,31 @@ H = 'props.fsprops'
 
 MIR_KINDS = ('lib', 'bin')
 
+def h_verify_nonascii(m, ctx, text=b't\xef\xbf\xbd', extra=0, free=None):
+    """an output that contains multi-byte characters (here U+FFFD itself) against an existing output of arbitrary bytes: verify
+    passes iff the bytes are identical -- a file that merely DECODES to the same text (a broken sequence decodes to U+FFFD) is stale"""
+    from mirsym.interp import Interp
+    from mirsym.core import t_bytes_eq, t_not
+    it = Interp(m, ctx)
+    it.exact_lossy = True
+    source = tuple(text) + (10,)
+    want = source
+    pre_out = ctx.fresh_bytes('po', len(want) + extra, ANYBYTE)
+    if free is not None:
+        # only the bytes at the given positions are arbitrary, the others are the fresh ones
+        pre_out = tuple(b if free[0] <= i < free[1] else want[i] for i, b in enumerate(pre_out))
+    se = SymEnv(ctx, inc_len=0, out_len=0)
+    env = se.install(it, source, pre_out=pre_out)
+    r = run_preprocess(m, it, 'Verify', False, True)
+    data = {'op': 'fs', 'mode': 'Verify', 'source': list(source), 'inc': [], 'pre_out': syms_of(pre_out), 'pre_temp': None, 'cmd_results': [],
+            'lines': ['text'], 'source_shown': show_bytes(source)}
+    ctx.cover('verify_nonascii_' + ('ok' if r.idx == 0 else 'err'))
+    if r.idx == 0:
+        check_bytes_equal(ctx, pre_out, want, 'verify passed on an output that is not byte-identical to the fresh one', data)
+    elif extra == 0:
+        ctx.check_holds(t_not(t_bytes_eq(tuple(pre_out), tuple(want))), 'verify failed on an up-to-date output', data)
+
+
 def jobs(tier):
     js = []
     quick = tier == 'quick'
@@ -36,6 +61,9 @@ def jobs(tier):
     for sub in ('Verify',):
         js.append({'name': 'cli: options passed to the run for sub-command %s x all flags' % sub, 'harness': ('props.c17', 'h_cli'),
                    'mir': ('lib', 'bin'), 'params': {'sub': sub, 'txtpp_file': None}})
+    for txt in ((b't\xef\xbf\xbd',) if quick else (b't\xef\xbf\xbd', b'\xc3\xa9x', b'\xf0\x9f\x98\x80', b'\xef\xbf\xbd\xef\xbf\xbd')):
+        js.append({'name': 'verify non-ASCII output %r against arbitrary bytes' % txt, 'harness': ('props.c06', 'h_verify_nonascii'), 'params': {'text': txt, 'free': (1, 4) if quick else None},
+                   'split': 8})
     from . import project
     js += project.jobs('C06', tier)
     return js
@@ -48,7 +76,7 @@ from . import project as _project
 BOUNDS = {k: v + _project.bounds_note('C06', k) for k, v in BOUNDS.items()}
 ASSUMPTIONS = ['D1-D12', 'std::fs / BufReader behaviour is a contract model (8 KiB reader buffer modelled)',
                '"never modifies" is established as "no mutating FS call on the output path" (inode / mtime follow by the OS contract)']
-COVERS_REQUIRED = ['deps_reported_Verify', 'verify_ok', 'verify_mismatch', 'verify_missing', 'verify_length_differs', 'verify_source_error']
+COVERS_REQUIRED = ['verify_nonascii_ok', 'verify_nonascii_err', 'deps_reported_Verify', 'verify_ok', 'verify_mismatch', 'verify_missing', 'verify_length_differs', 'verify_source_error']
 
 
 def replay(native, v):
